@@ -3,6 +3,7 @@
 #![allow(clippy::all)]
 #![allow(unused_imports)]
 #![allow(unsafe_code)]
+#![allow(static_mut_refs)]
 
 use super::*;
 use crate::verif::refmodel::*;
@@ -29,51 +30,79 @@ fn k_sse41_lane() {
     kani::cover!(r[l] == 96);
 }
 
-fn lanes(xb: &[u8], yb: &[u8]) -> [u32; 4] {
-    let mut x = [0u8; 16];
-    let mut y = [0u8; 16];
-    x.copy_from_slice(xb);
-    y.copy_from_slice(yb);
-    unsafe {
-        core::mem::transmute(packed_distance_as_u32x4(core::mem::transmute(x), core::mem::transmute(y)))
-    }
+// Structure lemmas: the kernel is replaced by a logging stub that returns harness-chosen lane
+// values bounded by the lane maximum proved in k_sse41_lane; the function must load the right
+// chunks in order and return the plain sum of all lanes (so a lane-width overflow in the
+// horizontal sum would be found).  Two copies of the real kernel in one query do not finish.
+const KCAP: usize = 4;
+static mut KLOG: [([u8; 16], [u8; 16]); KCAP] = [([0; 16], [0; 16]); KCAP];
+static mut KRET: [[u32; 4]; KCAP] = [[0; 4]; KCAP];
+static mut KN: usize = 0;
+
+unsafe fn stub_kernel(x: __m128i, y: __m128i) -> __m128i {
+    let i = KN;
+    assert!(i < KCAP);
+    KLOG[i] = (core::mem::transmute(x), core::mem::transmute(y));
+    KN = i + 1;
+    core::mem::transmute(KRET[i])
 }
 
-//@ h=k_sse41_d32 props=C02,C07,C17 cfgs=K6 tier=q t=1800 | funcs: x86_sse4_1::distance_32 | bound: all pairs of 32-byte bodies: == sum of all 8 lanes of the real kernel
-#[kani::proof]
-#[kani::unwind(20)]
-fn k_sse41_d32() {
-    let a: [u8; 32] = kani::any();
-    let b: [u8; 32] = kani::any();
-    let d = unsafe { distance_32(&a, &b) };
-    let p1 = lanes(&a[..16], &b[..16]);
-    let p2 = lanes(&a[16..], &b[16..]);
-    let mut s = 0u32;
-    let mut i = 0;
-    while i < 4 {
-        s += p1[i] + p2[i];
-        i += 1;
-    }
-    assert!(d == s);
-}
-
-//@ h=k_sse41_d64 props=C02,C07,C17 cfgs=K6 tier=q t=2400 | funcs: x86_sse4_1::distance_64 | bound: all pairs of 64-byte bodies: == sum of all 16 lanes of the real kernel
-#[kani::proof]
-#[kani::unwind(20)]
-fn k_sse41_d64() {
-    let a: [u8; 64] = kani::any();
-    let b: [u8; 64] = kani::any();
-    let d = unsafe { distance_64(&a, &b) };
-    let mut s = 0u32;
-    let mut c = 0;
-    while c < 4 {
-        let p = lanes(&a[16 * c..16 * c + 16], &b[16 * c..16 * c + 16]);
-        let mut i = 0;
-        while i < 4 {
-            s += p[i];
-            i += 1;
+macro_rules! simd_struct {
+    ($name:ident, $f:ident, $n:literal, $chunks:literal) => {
+        #[kani::proof]
+        #[kani::unwind(20)]
+        #[kani::stub(super::packed_distance_as_u32x4, stub_kernel)]
+        fn $name() {
+            let a: [u8; $n] = kani::any();
+            let b: [u8; $n] = kani::any();
+            let ret: [[u32; 4]; KCAP] = kani::any();
+            let mut c = 0;
+            while c < KCAP {
+                let mut l = 0;
+                while l < 4 {
+                    kani::assume(ret[c][l] <= 96);
+                    l += 1;
+                }
+                c += 1;
+            }
+            unsafe {
+                KRET = ret;
+                KN = 0;
+            }
+            let d = unsafe { $f(&a, &b) };
+            let n = unsafe { KN };
+            if n == 0 {
+                // native replay (no stub): compare with the reference directly
+                let mut s = 0u32;
+                let mut i = 0;
+                while i < $n {
+                    s += ref_dist_body_byte(a[i], b[i]);
+                    i += 1;
+                }
+                assert!(d == s);
+                return;
+            }
+            assert!(n == $chunks);
+            let mut s = 0u32;
+            let mut c = 0;
+            while c < $chunks {
+                let (lx, ly) = unsafe { KLOG[c] };
+                let j: usize = kani::any();
+                kani::assume(j < 16);
+                assert!(lx[j] == a[16 * c + j] && ly[j] == b[16 * c + j]);
+                let mut l = 0;
+                while l < 4 {
+                    s += ret[c][l] as u32;
+                    l += 1;
+                }
+                c += 1;
+            }
+            assert!(d == s);
+            kani::cover!(d == $chunks * 4 * 96);
         }
-        c += 1;
-    }
-    assert!(d == s);
+    };
 }
+//@ h=k_sse41_d32 props=C02,C07,C17 cfgs=K6 tier=q t=900 | funcs: x86_sse4_1::distance_32 (unaligned loads, accumulation, horizontal sum) | bound: all pairs of 32-byte bodies and ALL lane values up to the lane maximum 96: loads exactly the consecutive 16-byte chunks of both bodies in order, result == sum of all lanes | stubs: the SSE4.1 kernel -> logging stub returning arbitrary bounded lanes (kernel itself: k_sse41_lane)
+simd_struct!(k_sse41_d32, distance_32, 32, 2);
+//@ h=k_sse41_d64 props=C02,C07,C17 cfgs=K6 tier=q t=900 | funcs: x86_sse4_1::distance_64 | bound: all pairs of 64-byte bodies and all bounded lane values: right chunks in order, result == sum of all lanes (no lane overflow) | stubs: the SSE4.1 kernel -> logging stub
+simd_struct!(k_sse41_d64, distance_64, 64, 4);
